@@ -176,7 +176,15 @@ def mem_fusemax(ctx: Ctx) -> None:
         ok = False
         if ops:
             has_succ = any(unparse(o) == f"{f.params[0]}.projected_mem" for o in ops)
-            pk = [o for o in ops if isinstance(o, ast.Call) and PEAK in repo.callee_quals(o, f)]
+            # an operand may be a local holding the peak (`peak = peak_projected_mem(...)`)
+            ops2 = []
+            for o in ops:
+                if isinstance(o, ast.Name):
+                    ds = fl.rdefs(o.id, cfg.node_of(p))
+                    if len(ds) == 1 and ds[0].kind == "assign" and ds[0].value is not None:
+                        o = ds[0].value
+                ops2.append(o)
+            pk = [o for o in ops2 if isinstance(o, ast.Call) and PEAK in repo.callee_quals(o, f)]
             covers = False
             for o in pk:
                 a = o.args[0] if o.args else None
